@@ -832,10 +832,32 @@ func syncResync(run *harness.Run, d *Driver, key string, idx int) {
 	}
 	base1 := int64(1000 + r.Intn(100000))
 	data1 := build(base1, n1, 0)
+	// decimal boundary (its own PRNG stream, the case mix above is not disturbed): two scenarios in
+	// three start era 1 a few units below a power of ten, so that units committed into different
+	// slots end on both sides of 10^k — e.g. 99 991 in one slot, 100 012 in the next — and the
+	// slots of the earlier units (never written again) keep records with a larger leading digit
+	// but a smaller value for the rest of the scenario.
+	straddle := ""
+	if idx%3 != 2 {
+		rd := run.Rand(key + "|decimal-boundary")
+		k := 3 + rd.Intn(7) // 10^3 … 10^9
+		pow := int64(1)
+		for i := 0; i < k; i++ {
+			pow *= 10
+		}
+		j := rd.Intn(n1 - 1) // units[0..j] end below 10^k, units[j+1..] above
+		nb := pow - (s.units[j].End - base1) - int64(1+rd.Intn(9))
+		for i := 0; i < n1; i++ {
+			s.units[i].Start += nb - base1
+			s.units[i].End += nb - base1
+		}
+		base1 = nb
+		straddle = fmt.Sprintf("; era 1 straddles 10^%d: unit %d ends at %d, unit %d at %d", k, j+1, s.units[j].End, j+2, s.units[j+1].End)
+	}
 	base2 := base1 + int64(len(data1)) + int64(1+r.Intn(50000))
 	data2 := build(base2, n2, n1)
 	s.base, s.bases = base1, []int64{base1}
-	s.desc = fmt.Sprintf("sync mode, resynchronisation under the same run id: era 1 = %d units from %d, second snapshot at %d, era 2 = %d units (%d committed before the stop)", n1, base1, base2, n2, n2a)
+	s.desc = fmt.Sprintf("sync mode, resynchronisation under the same run id: era 1 = %d units from %d, second snapshot at %d, era 2 = %d units (%d committed before the stop)%s", n1, base1, base2, n2, n2a, straddle)
 	ids := SourceRunIDs()
 	ctx := context.Background()
 
@@ -891,7 +913,10 @@ func syncResync(run *harness.Run, d *Driver, key string, idx int) {
 	s.cl.WaitIdle(20*time.Millisecond, 5*time.Second)
 	run.Eval(1)
 	run.Count("cluster_sync_resyncs", 1)
-	run.Distinct(fmt.Sprintf("%s|resync-same-run-id|era1=%d|era2-before-stop=%d", s.ctx, n1, n2a))
+	run.Distinct(fmt.Sprintf("%s|resync-same-run-id|era1=%d|era2-before-stop=%d|decimal-boundary=%v", s.ctx, n1, n2a, straddle != ""))
+	if straddle != "" {
+		run.Count("cluster_sync_streams_across_power_of_ten", 1)
+	}
 
 	o, err := s.open()
 	if err != nil {
